@@ -407,16 +407,20 @@ def dehoist_function(fn: ast.AST, known: set[str]) -> int:
 
 class _Canon(ast.NodeTransformer):
     """Branch-order canonical form: `if not X: A else: B` is read as
-    `if X: B else: A` (both in the pinned tree and in any later one), so
-    swapping the arms of a two-armed conditional is invisible to the
-    rules."""
+    `if X: B else: A`, and `if not X: A` as `if X: pass else: A` (both in
+    the pinned tree and in any later one), so swapping the arms of a
+    conditional, or turning `if X: body` into the guard clause
+    `if not X: return` followed by the body, is invisible to the rules: the
+    test is always the un-negated condition and the flow graph is the
+    same."""
 
     def visit_If(self, n: ast.If) -> ast.AST:
         self.generic_visit(n)
         while (isinstance(n.test, ast.UnaryOp)
-               and isinstance(n.test.op, ast.Not) and n.orelse):
+               and isinstance(n.test.op, ast.Not)):
             n.test = n.test.operand
-            n.body, n.orelse = n.orelse, n.body
+            n.body, n.orelse = (
+                n.orelse or [ast.copy_location(ast.Pass(), n)]), n.body
         return n
 
     def visit_IfExp(self, n: ast.IfExp) -> ast.AST:
